@@ -239,6 +239,14 @@ def derive_inventory(trees: typing.Dict[str, ast.Module]) -> dict:
             kind = None
             if re.search(r'\bpickle\.|Pickler\b|\byaml\.dump', body):
                 kind = 'KPickle'                                 # serialises the whole object it is given
+                # ... unless its Pickler reduces every path to one relative to the root namespace (b86b49b): a
+                # reducer_override that tests isinstance(obj, pathlib.PurePath), calls relative_to and returns a PurePosixPath
+                for ro in [n for n in ast.walk(fn) if isinstance(n, ast.FunctionDef) and n.name == 'reducer_override']:
+                    src = ast.unparse(ro)
+                    rets = [ast.unparse(r.value) for r in ast.walk(ro) if isinstance(r, ast.Return) and r.value is not None]
+                    if re.search(r'isinstance\(\w+, pathlib\.PurePath\)', src) and '.relative_to(' in src \
+                            and any(r.startswith('(pathlib.PurePosixPath,') for r in rets):
+                        kind = None
             elif 'resolve' in params:
                 kind = 'KAbsSrc:args'                            # absolute only when called with an argument
             elif 'sort' in params:
@@ -998,6 +1006,8 @@ def classify_path_sink(trees: typing.Dict[str, ast.Module], pars: typing.Dict[st
             sink = _is_sink_call(p)
             if sink:
                 return sink
+            if (qual(p.func, import_aliases(trees[rel])) or '') in ('pydsdl.read_files', 'pydsdl.read_namespace'):
+                return 'RdFrontEndInput'     # handed to the DSDL front end, which opens the files; not emitted
             if isinstance(p.func, ast.Name) and p.func.id in ('str', 'sorted', 'list', 'set', 'tuple', 'iter'):
                 cur = p
                 continue
